@@ -54,7 +54,13 @@ def build_stages(case, records, names, shard=None):
   for gi, (g, nm) in enumerate(zip(groups, names)):
     t = T.new(name=nm, num_threads=case.get('num_threads', 0) if gi == 0 else 0)
     if gi == 0:
-      src = io.SequenceDataSource(copy.deepcopy(records))
+      recs = copy.deepcopy(records)
+      if case.get('splits'):
+        # the records come as several sequences merged into one source (shard and thread ranges may end on their boundaries)
+        cuts_ = [0] + sorted(min(c, len(recs)) for c in case['splits']) + [len(recs)]
+        src = io.SequenceDataSource.from_sequences([recs[a:b] for a, b in zip(cuts_, cuts_[1:])])
+      else:
+        src = io.SequenceDataSource(recs)
       t = t.data_source(src if shard is None else src.shard(*shard))
     for op in g:
       t = pipegen.add_op(t, op, [])
@@ -143,7 +149,8 @@ def run_case(case):
         states.append(it.agg_state)
       order = strat_.get('order') or list(range(k))
       states = [states[i % k] for i in order] if sorted(i % k for i in order) == list(range(k)) else states
-      merged = runner.merge_states(states, strict_states_cnt=k)
+      # the shard states arrive as a list or, as from the orchestration layer, as a one-shot stream
+      merged = runner.merge_states(iter(states) if strat_.get('merge_from') == 'iterator' else states, strict_states_cnt=k)
       got_agg = norm_result(runner.get_result(merged))
     except Exception as e:  # pylint: disable=broad-exception-caught
       raise crash(e, what) from e
@@ -188,7 +195,14 @@ def _base_case(draw):
   nops = len(prog['ops'])
   ncuts = draw(st.integers(0, min(3, nops)))
   cuts = sorted(draw(st.lists(st.integers(0, nops), min_size=ncuts, max_size=ncuts)))
-  return {'prog': prog, 'records': records, 'cuts': cuts, 'mid_agg': draw(st.booleans())}
+  case = {'prog': prog, 'records': records, 'cuts': cuts, 'mid_agg': draw(st.booleans())}
+  if records and draw(st.integers(0, 2)) == 0:
+    n = len(records)
+    # boundaries of the merged sequences: arbitrary, or exactly where k equal shards end
+    k = draw(st.integers(2, 6))
+    case['splits'] = draw(st.one_of(st.lists(st.integers(0, n), min_size=1, max_size=3),
+                                    st.just(sorted({(n * i) // k for i in range(1, k)} | {-(-n * i // k) for i in range(1, k)}))))
+  return case
 
 
 def strat_sched(tier):
@@ -208,7 +222,8 @@ def strat_structural(tier):
     kind = draw(st.sampled_from(['stages', 'fused', 'named', 'shards', 'shards']))
     if kind == 'shards':
       k = draw(st.integers(1, 6))
-      case['strategy'] = {'kind': kind, 'k': k, 'order': draw(st.permutations(list(range(k))))}
+      case['strategy'] = {'kind': kind, 'k': k, 'order': draw(st.permutations(list(range(k)))),
+                          'merge_from': draw(st.sampled_from(['list', 'iterator']))}
     else:
       case['strategy'] = {'kind': kind}
     return case
